@@ -651,10 +651,35 @@ PROPS["C14"] = dict(family="imports", level="model_checking", design_ref="4.4",
                     text="ExpandFile is the specification of importing; the cycle rule is the compiler's own stack discipline stated in TLA+.", note="Trusted: TLC, Json module, the file writer in harness/cmd/vdrive/imports.go, testing/fstest.MapFS.")
 
 
+# ---------------------------------------------------------------------------------- links (C35)
+def corrupt_links(lines, pid):
+    for e in lines:
+        if e.get("ev") == "prog" and e.get("err") == 0:
+            for x in e["links"]:
+                if x["stored"]:
+                    x["stored"] = x["stored"][:-1] + ["zzz"]
+                    return "last segment of a stored link changed"
+    return None
+
+
+FAMILIES["links"] = dict(vdrive="links", trace_module="TraceD2Links", trace_cfg="TraceD2Links.cfg", corrupt=corrupt_links, engine="TraceD2Links", prebuild=_prebuild_d2, args={"d2": _D2, "n": "600"}, chunk=1500, heap="4g")
+PROPS["C35"] = dict(family="links", level="model_checking", design_ref="4.3",
+                    technique="TLA+ resolution of board links (Target: root = absolute, each leading _ climbs one board, rest appended; Kept: the board exists and is not the current one) and derivation of output files and relative paths (File/Rel, the BoardPaths derivation restated over a given tree); TLC compares with the links the real compiler stores and with the hrefs the real CLI writes into the boards' SVG files",
+                    base=dict(quick=[dict(module="BoardPaths", cfg="BoardPaths_escaped.cfg")], thorough=[dict(module="BoardPaths", cfg="BoardPaths_escaped.cfg")]),
+                    rule=("the space is FIXED (tree #i from seed i, 4,800 trees; quick takes the 600 VERIF_SEED selects): board trees to depth 2 with layers, scenarios and steps (1-2 of a kind), 0-3 linked objects per board, a quarter of them inside a container; "
+                          "link forms: absolute (root...), child or grandchild, missing board, 1-3 underscores with or without a tail, the board itself (by climbing and coming back, and absolute), climb to the common ancestor of a random board and descend. "
+                          "Every fourth tree is also written to files by the real d2 binary (dagre) and the href of every linked object is read back from the board's own SVG file. Non-trivial: more than one board and at least one link."),
+                    exhaustive=dict(quick=True, thorough=True),
+                    assumptions=["links inside imported files (rebasing onto the importing board) are not generated", "board names are plain identifiers (file-name escaping is C34's matter)",
+                                 "a board's file is recognised by a marker object; scenarios and steps show their base's markers too, so the file with the fewest markers is taken"],
+                    text="Target/Kept are the specification of link resolution; File/Rel of where a link points once boards are files.", note="Trusted: TLC, Json module, the SVG scan (regular expressions on <a href> and <g class>).")
+
+
 # ------------------------------------------------------------------------------- manifest data
 HOOK_COMMITS = ["9d004ebd4", "879b5d739"]
 
 ENGINES = {
+    "TraceD2Links": dict(path="specs/TraceD2Links.tla, specs/BoardPaths.tla", kind="TLA+ resolution of board links and derivation of output files and relative paths; TLC compares with the real compiler's stored links and the real CLI's hrefs"),
     "TraceD2Imports": dict(path="specs/D2IR.tla, specs/TraceD2Imports.tla, specs/ir_alphabet.json", kind="TLA+ expansion of imports with the import stack (cycle rule) over the D2IR reference interpreter; TLC compares the expansion with the real compiler's result for generated file sets"),
     "TraceD2Boards": dict(path="specs/D2IR.tla, specs/TraceD2Boards.tla, specs/ir_alphabet.json", kind="TLA+ inheritance rule for layers/scenarios/steps over the D2IR reference interpreter; TLC derives and folds the declarations of every board and compares with the real compiler's boards"),
     "TraceD2Vars": dict(path="specs/D2Vars.tla, specs/TraceD2Vars.tla", kind="TLA+ model of scoped variable resolution and substitution (TLC: all 3-scope programs) + TLC comparison of the model with the real compiler on generated programs and their textually substituted twins"),
